@@ -55,6 +55,9 @@ structure Family where
   /-- (tree mode) compare by walking both trees (`treeEqv` with the arithmetic implication oracle): `specT` may have another
       shape than the traced tree — it states the decisions the way the documentation does -/
   treeWalk : Bool := false
+  /-- (`frac`) do not name the divisors: the theorem assumes instead that the evaluation of the traced expression and of
+      the specification divides by zero nowhere (`E.divOK` of both) -/
+  divFree : Bool := false
   /-- additionally require `Tree.guarded` of every raw output: each `sqrt`/`acos`/`asin`/`log` the code
       evaluates has its argument in range because of the decisions taken before (no hidden NaN) -/
   guard : Bool := false
@@ -74,7 +77,7 @@ def Family.leafOK (f : Family) (ks : List Nat) (j : Nat) (e s : E) : Bool :=
   match f.kind with
   | .poly => e == s || polyEq e s          -- literal equality first: cheap when the spec mirrors the code
   | .syn => e == s
-  | .frac => (e == s || fracEq e s) && e.divisors.all (divisorAllowed (f.allowed ks)) && s.divisors.all (divisorAllowed (f.allowed ks))
+  | .frac => (e == s || fracEq e s) && (f.divFree || (e.divisors.all (divisorAllowed (f.allowed ks)) && s.divisors.all (divisorAllowed (f.allowed ks))))
   | .polyMod => polyEqMod (f.hyps ks) (f.cert ks j) (e.rewrite (f.rw ks)) s
   | .fracMod => fracEqMod (f.hyps ks) (f.cert ks j) e s && e.divisors.all (divisorAllowed (f.allowed ks))
       && s.divisors.all (divisorAllowed (f.allowed ks))
